@@ -593,6 +593,10 @@ pub struct HistOpts {
     /// closures (`sys.write`, `sys.open-for-write`: where records are stored); `true` = only the
     /// kinds that are no errors (a short write, EINTR), after which everything must be as usual
     pub sys_fault: (usize, bool),
+    /// one plain rewrite in this many becomes a rewrite dated before 1970 (0 = never): the state
+    /// of such a file cannot be computed, so nothing is recorded - only for checks that judge
+    /// skips, not rebuilds
+    pub ancient_every: u64,
 }
 
 pub fn gen_history(rng: &mut Rng, o: &HistOpts) -> Scenario {
@@ -677,6 +681,10 @@ pub fn gen_history(rng: &mut Rng, o: &HistOpts) -> Scenario {
                     gen_edit(rng, &sc, counter)
                 };
                 if let Some(e) = e {
+                    let e = match e {
+                        Step::Fs(FsOp::Write { path, content }) if o.ancient_every > 0 && simrt::stamp::fnv(simrt::stamp::FNV_INIT, path.as_bytes()) % o.ancient_every == 0 => Step::Fs(FsOp::WriteAncient { path, content }),
+                        other => other,
+                    };
                     sc.steps.push(e);
                 }
             }
@@ -745,7 +753,7 @@ impl Property for C02 {
         vec!["mtimes of workload and script writes come from the simulator's logical clock (one tick per write)", "race-free layouts: a file is written by at most one target"]
     }
     fn generate(&self, rng: &mut Rng, _case: u64) -> Scenario {
-        gen_history(rng, &HistOpts { io: IoOpts { own_output_inside_input_pct: 12, cmd_output_pct: 30, multi_project_pct: 55, cmd_pct: 35, ..IoOpts::default() }, max_invocations: 5, edit_pct: 85, touch_only: false, vary_entry: false, clean_pct: 5, fail_pct: 8, corrupt_pct: 8, io_fault_pct: 12, sys_fault: (10, false) })
+        gen_history(rng, &HistOpts { io: IoOpts { own_output_inside_input_pct: 12, cmd_output_pct: 30, multi_project_pct: 55, cmd_pct: 35, ..IoOpts::default() }, max_invocations: 5, edit_pct: 85, touch_only: false, vary_entry: false, clean_pct: 5, fail_pct: 8, corrupt_pct: 8, io_fault_pct: 12, sys_fault: (10, false), ancient_every: 4 })
     }
     fn evaluate(&self, sc: &Scenario, root: &Path, stats: &mut Stats) -> Option<Violation> {
         let v = eval_history(sc, root, stats, Some(Which::Sound), any_target, None, nontrivial_decision);
@@ -771,7 +779,7 @@ impl Property for C03 {
         "one case = 1-3 generated projects (shared resources, identical command text and identical relative paths in different project directories, X.output across projects) and a history of 2-5 invocations over an untouched tree (different requested sets and spellings; the only edits are touch-only, content identical). Oracle: a target that declares inputs, has a definite model record and whose declared resources are content-equal to that record must not have its script started; a target without inputs must never be skipped. distinct_nontrivial = distinct order hashes among invocations in which a target with a model record was evaluated"
     }
     fn generate(&self, rng: &mut Rng, _case: u64) -> Scenario {
-        let mut sc = gen_history(rng, &HistOpts { io: IoOpts { multi_project_pct: 60, max_targets: 6, cmd_pct: 35, cmd_output_pct: 0, own_output_inside_input_pct: 12, long_name_len: 0 }, max_invocations: 4, edit_pct: 40, touch_only: true, vary_entry: false, clean_pct: 0, fail_pct: 18, corrupt_pct: 0, io_fault_pct: 0, sys_fault: (12, true) });
+        let mut sc = gen_history(rng, &HistOpts { io: IoOpts { multi_project_pct: 60, max_targets: 6, cmd_pct: 35, cmd_output_pct: 0, own_output_inside_input_pct: 12, long_name_len: 0 }, max_invocations: 4, edit_pct: 40, touch_only: true, vary_entry: false, clean_pct: 0, fail_pct: 18, corrupt_pct: 0, io_fault_pct: 0, sys_fault: (12, true), ancient_every: 0 });
         sc.import_through_links();
         sc
     }
@@ -806,7 +814,7 @@ impl Property for C13 {
             // building) must end with the consumer built from the producer's final outputs
             return super::watch::gen_watch(rng, &super::watch::WatchOpts { inside_build_pct: 60, io_only: true, ..Default::default() });
         }
-        gen_history(rng, &HistOpts { io: IoOpts { multi_project_pct: 70, max_targets: 6, cmd_pct: 35, cmd_output_pct: 35, own_output_inside_input_pct: 0, long_name_len: 0 }, max_invocations: 4, edit_pct: 70, touch_only: false, vary_entry: false, clean_pct: 0, fail_pct: 0, corrupt_pct: 0, io_fault_pct: 0, sys_fault: (6, true) })
+        gen_history(rng, &HistOpts { io: IoOpts { multi_project_pct: 70, max_targets: 6, cmd_pct: 35, cmd_output_pct: 35, own_output_inside_input_pct: 0, long_name_len: 0 }, max_invocations: 4, edit_pct: 70, touch_only: false, vary_entry: false, clean_pct: 0, fail_pct: 0, corrupt_pct: 0, io_fault_pct: 0, sys_fault: (6, true), ancient_every: 0 })
     }
     fn evaluate(&self, sc: &Scenario, root: &Path, stats: &mut Stats) -> Option<Violation> {
         if sc.label.starts_with("watch-") {
@@ -835,7 +843,7 @@ impl Property for C18 {
         "one case = 2-3 projects + a history of 2-5 invocations with different requested targets, different entry projects (-p the root or an imported project's own directory), --clean T for some targets, failing other targets, interleaved with edits. Oracle (both directions): each target's decision equals the model's decision computed from that target's own declared resources and its own last successful completion only. distinct_nontrivial = distinct order hashes among invocations where a target with a model record was evaluated"
     }
     fn generate(&self, rng: &mut Rng, _case: u64) -> Scenario {
-        let mut sc = gen_history(rng, &HistOpts { io: IoOpts { multi_project_pct: 85, max_targets: 6, cmd_pct: 20, cmd_output_pct: 0, own_output_inside_input_pct: 12, long_name_len: 0 }, max_invocations: 5, edit_pct: 50, touch_only: false, vary_entry: true, clean_pct: 20, fail_pct: 20, corrupt_pct: 10, io_fault_pct: 0, sys_fault: (10, true) });
+        let mut sc = gen_history(rng, &HistOpts { io: IoOpts { multi_project_pct: 85, max_targets: 6, cmd_pct: 20, cmd_output_pct: 0, own_output_inside_input_pct: 12, long_name_len: 0 }, max_invocations: 5, edit_pct: 50, touch_only: false, vary_entry: true, clean_pct: 20, fail_pct: 20, corrupt_pct: 10, io_fault_pct: 0, sys_fault: (10, true), ancient_every: 0 });
         sc.import_through_links();
         sc
     }
@@ -1088,7 +1096,7 @@ impl Property for C12 {
         vec!["a declared output path that is itself a symbolic link: cleaning removes the link only (what std's remove_file / remove_dir_all do with a link)"]
     }
     fn generate(&self, rng: &mut Rng, _case: u64) -> Scenario {
-        let mut sc = gen_history(rng, &HistOpts { io: IoOpts { multi_project_pct: 50, max_targets: 5, cmd_pct: 10, cmd_output_pct: 0, own_output_inside_input_pct: 0, long_name_len: 0 }, max_invocations: 4, edit_pct: 30, touch_only: false, vary_entry: false, clean_pct: 70, fail_pct: 15, corrupt_pct: 0, io_fault_pct: 0, sys_fault: (0, false) });
+        let mut sc = gen_history(rng, &HistOpts { io: IoOpts { multi_project_pct: 50, max_targets: 5, cmd_pct: 10, cmd_output_pct: 0, own_output_inside_input_pct: 0, long_name_len: 0 }, max_invocations: 4, edit_pct: 30, touch_only: false, vary_entry: false, clean_pct: 70, fail_pct: 15, corrupt_pct: 0, io_fault_pct: 0, sys_fault: (0, false), ancient_every: 0 });
         // decorate output locations
         let mut extra = vec![];
         for p in &sc.projects {
